@@ -13,6 +13,7 @@ type EnumOpts struct {
 	Negative     bool // inject one defect that must make generation fail
 	NoBigConst   bool // stay out of F-ENUM-BIGCONST (float / huge constants with equal values)
 	NoUnexported bool // stay out of F-ENUM-UNEXPORTED
+	Unexported   bool // may declare unexported source members
 }
 
 // EnumInfo describes a generated enum type for the value generator of the driver.
@@ -80,6 +81,10 @@ func (b *Builder) EnumProgram(o EnumOpts) []EnumInfo {
 			valIdx++
 		}
 		sname := name("s", mem)
+		if o.Unexported && !o.NoUnexported && b.chance(30, "enum-unexported-member") {
+			sname = "x" + sname
+			b.label("enum:unexported-source-member")
+		}
 		cs = append(cs, spec.Const{Name: sname, Value: sv})
 		switch {
 		case dup:
